@@ -65,3 +65,42 @@ Fixpoint write_reply (shape : write_reply_shape_t) (data rem : list N) (evs : li
 (* the server's reply write, as the code has it *)
 Definition server_write_reply (data : list N) (evs : list wevent) : list N * rresult :=
   write_reply write_reply_shape data data evs.
+
+(* ---- the client's request write (client/task.rs execute_request) ----
+   The write is awaited by execute_request itself; since F14 it is bounded by the request's timeout
+   (Gen/WritePath.client_write_shape, regenerated): when the timeout elapses while the transport has not taken the
+   whole frame, the call ends with Io(TimedOut), which ends the session (Gen/ClientFatal.io_error_ends_session). *)
+Inductive cevent := CTake (k : nat) | CTimeout.
+Inductive cresult := CDone | CParked | CTimedOut.
+
+Fixpoint client_write (shape : client_write_shape_t) (rem : list N) (evs : list cevent) {struct evs} : list N * cresult :=
+  match rem with
+  | [] => ([], CDone)
+  | _ =>
+      match evs with
+      | [] => ([], CParked)
+      | CTake k :: r => let '(out, res) := client_write shape (skipn k rem) r in (firstn k rem ++ out, res)
+      | CTimeout :: r =>
+          match shape with
+          | ClientWriteBoundedByRequestTimeout => ([], CTimedOut)
+          | ClientWriteAwaitedUnbounded => client_write shape rem r          (* nothing bounds the wait *)
+          end
+      end
+  end.
+Definition client_request_write (data : list N) (evs : list cevent) : list N * cresult :=
+  client_write client_write_shape data evs.
+
+(* one connection: request after request; `ends` says whether an I/O error ends the session. Result: everything handed
+   to the transport on this connection, and whether the session is still alive *)
+Fixpoint client_conn_emit (ends : bool) (reqs : list (list N * list cevent)) : list N * bool :=
+  match reqs with
+  | [] => ([], true)
+  | (data, evs) :: r =>
+      match client_request_write data evs with
+      | (out, CDone) => let '(o, alive) := client_conn_emit ends r in (out ++ o, alive)
+      | (out, CParked) => (out, true)                       (* still writing; later requests wait in the queue *)
+      | (out, CTimedOut) =>
+          if ends then (out, false)
+          else let '(o, alive) := client_conn_emit ends r in (out ++ o, alive)
+      end
+  end.
